@@ -111,7 +111,8 @@ class Ownership:
                 if short == "array" and expr.args:
                     # numpy.array copies unless copy=False is passed
                     for k in expr.keywords:
-                        if k.arg == "copy" and isinstance(k.value, ast.Constant) and k.value.value is False:
+                        if k.arg == "copy" and not (isinstance(k.value, ast.Constant) and k.value.value is True):
+                            # copy=False, copy=None ("only if needed") or a computed flag: the argument itself may come back
                             return self.roots(expr.args[0], amap, selfname, attr_alias, ci, mi, depth)
                     return set()
                 if mi is not None and f.id in mi.functions and depth > 0:
@@ -480,7 +481,7 @@ def _state_path(e, alias):
         if nm in VIEW_FUNCS | {"asfortranarray", "asarray_chkfinite", "atleast_3d", "require"} and e.args \
                 and not (isinstance(f, ast.Attribute) and not isinstance(f.value, ast.Name)):
             return _state_path(e.args[0], alias)
-        if nm == "array" and e.args and any(k.arg == "copy" and isinstance(k.value, ast.Constant) and k.value.value is False for k in e.keywords):
+        if nm == "array" and e.args and any(k.arg == "copy" and not (isinstance(k.value, ast.Constant) and k.value.value is True) for k in e.keywords):
             return _state_path(e.args[0], alias)
     return set()
 
